@@ -27,7 +27,7 @@ STUBS = ["ScriptTorch / LT (harness/scripttorch.py)", "ClassDS with a concrete l
 ASSUMPTIONS = ["draws satisfy the contract of the torch call that produced them", "random_() seeds derived from rank / epoch are arbitrary integers (uninterpreted function of the key)"]
 OUTSIDE = ["statistical properties of the real PRNGs", "that differently keyed generators really produce different streams", "layouts above the bound"]
 BOUNDS = {"quick": "class-balanced: layouts up to 4 samples, samples_per_class<=2 (default None too), shuffle on/off; semi: pools up to 3 labeled / 3 unlabeled, num_labeled/num_unlabeled<=2, 3 length modes, W<=2; weighted: n<=4",
-          "thorough": "layouts up to 5 samples, samples_per_class<=3; semi W<=3"}
+          "thorough": "more layouts (up to 5 samples / 3 classes, final shuffles of up to 5 entries), semi layouts up to 6 samples with (2,2) chunks"}
 
 
 def body_cb_epoch(cfg, seed, epoch, *flat):
@@ -194,10 +194,10 @@ def conditions(tier, rng):
     for layout in (CB_LAYOUTS_Q if q else CB_LAYOUTS_T):
         C = max(layout) + 1
         counts = [sum(1 for c in layout if c == k) for k in range(C)]
-        for spc0 in ((0, 1, 2) if q else (0, 1, 2, 3)):
+        for spc0 in (0, 1, 2):
             spc = spc0 or max(counts)
             sizes = cb_draw_sizes(layout, spc)
-            if sizes[-1] > (4 if q else 6):
+            if sizes[-1] > (4 if q else 5):
                 continue
             for shuffle in (True, False):
                 ps, pre = flat_params(sizes)
@@ -218,7 +218,7 @@ def conditions(tier, rng):
         b = len(layout) - a
         for L, U in ((1, 1), (1, 2), (2, 1)) if q else ((1, 1), (1, 2), (2, 1), (2, 2)):
             for mode in ("labeled", "unlabeled", "all"):
-                for W in ((1, 2) if q else (1, 2, 3)):
+                for W in (1, 2):
                     chunks = {"labeled": a // L, "unlabeled": b // U, "all": (a + b) // (L + U)}[mode]
                     per_rank = chunks * (L + U) // W
                     if per_rank == 0 or per_rank > 6:
